@@ -48,6 +48,7 @@ ASSUMPTIONS = ["coordinates are dyadic rationals of magnitude < 200 (lattice poi
 N_VARIANTS = 4
 
 OBLIGATIONS = {
+    "long_polyline": "a polyline of 17 or more vertices (serpentine, zigzag, hairpin, fan) was queried on the whole lattice around it",
     "vertical_segment": "a case whose carrying / only segment has x1 == x2",
     "horizontal_segment": "a case whose carrying / only segment has y1 == y2",
     "oblique_segment": "a case whose carrying / only segment is neither horizontal nor vertical",
@@ -73,6 +74,8 @@ def bounds(tier, variant):
          "polyline_vertices": "all tuples of 2..%d vertices on the %dx%d lattice with >= 1 proper segment" % (
              POLY_MAXN[tier], POLY_SIDE, POLY_SIDE),
          "polyline_queries": "all integer points of [%d,%d]^2" % Q_RANGE,
+         "long_polylines": {"shapes": LONG_SHAPES, "vertices": LONG_N[tier], "queries": "all %s points of [%d,%d] x [%d,%d]" % (
+             "half-integer" if tier == "thorough" else "integer", LONG_Q[0][0], LONG_Q[0][1], LONG_Q[1][0], LONG_Q[1][1])},
          "forms": ["proj_segment", "proj_polyligne", "mapOnTrack(coord)", "mapOnTrack(track)"],
          "lattice_offset_scale": list(alpha.PLANAR[variant])}
     if tier == "thorough":
@@ -375,6 +378,9 @@ def _plan_variant(tier, variant, deep):
         for p1 in L:
             sh.append({"kind": "polylines", "variant": variant, "p0": list(p0), "p1": list(p1),
                        "maxn": POLY_MAXN[tier] if deep else POLY_MAXN["quick"], "half": bool(deep)})
+    for shape in LONG_SHAPES:
+        for n in LONG_N[tier if deep else "quick"]:
+            sh.append({"kind": "long", "variant": variant, "shape": shape, "n": n, "half": bool(deep)})
     return sh
 
 
@@ -388,8 +394,55 @@ def plan(tier, variant):
     return _plan_variant("thorough", variant, True) + sh
 
 
+# ---- long polylines (17..40 vertices): the nearest segment is generally not next to the nearest vertex ----------------
+LONG_SHAPES = ["serpentine", "zigzag", "hairpin", "fan"]
+LONG_N = {"quick": [17, 18, 33], "thorough": [17, 18, 24, 33, 40, 65]}
+LONG_Q = ((-1, 6), (-1, 5))
+
+
+def long_polyline(shape, n):
+    """n lattice vertices in [0,5] x [0,4]."""
+    if shape == "serpentine":           # rows of 6, left to right then right to left
+        out = []
+        for k in range(n):
+            row, c = divmod(k, 6)
+            out.append((c if row % 2 == 0 else 5 - c, row % 5))
+        return out
+    if shape == "zigzag":               # long oblique legs between the bottom and the top line
+        return [(k % 6, 0 if k % 2 == 0 else 4) for k in range(n)]
+    if shape == "hairpin":              # long nearly parallel legs with vertices at the two ends only
+        return [(0 if k % 2 == 0 else 5, (k // 2) % 5) for k in range(n)]
+    if shape == "fan":                  # every other vertex is the hub (2, 2)
+        rim = [(0, 0), (5, 0), (5, 4), (0, 4), (3, 0), (5, 2), (2, 4), (0, 1)]
+        return [(2, 2) if k % 2 == 0 else rim[(k // 2) % len(rim)] for k in range(n)]
+    raise KeyError(shape)
+
+
+def _run_long(shard, ctx):
+    v, shape, n = shard["variant"], shard["shape"], shard["n"]
+    ptsl = long_polyline(shape, n)
+    pts = [_P(v, p) for p in ptsl]
+    track = _mk_track(v, pts)
+    step = 0.5 if shard["half"] else 1
+    xs, ys = _lattice(LONG_Q[0][0], LONG_Q[0][1], step), _lattice(LONG_Q[1][0], LONG_Q[1][1], step)
+    for y in ys:
+        row = [(x, y) for x in xs]
+        Os = []
+        for q in row:
+            O = oracle(pts, _P(v, q))
+            Os.append(O)
+            check_polyline(v, ptsl, q, ctx, O)
+            check_map_point(v, ptsl, q, ctx, O, track)
+        check_map_track(v, ptsl, row, ctx, Os, track)
+    ctx.oblige("long_polyline")
+    ctx.sample({"forms": ["proj_polyligne", "mapOnTrack(coord)", "mapOnTrack(track)"], "long_polyline": shape, "vertices": n,
+                "queries": len(xs) * len(ys), "variant": v})
+
+
 def run_shard(shard, ctx):
-    if shard["kind"] == "segments":
+    if shard["kind"] == "long":
+        _run_long(shard, ctx)
+    elif shard["kind"] == "segments":
         _run_segments(shard, ctx)
     else:
         _run_polylines(shard, ctx)
